@@ -266,19 +266,19 @@ func raceMain(verif, prop, tier string, seed uint64, cfg propCfg, tc tierCfg, re
 	}
 	cov := map[string]interface{}{
 		"evaluations": runs, "distinct_nontrivial": runs,
-		"rule":                  cfg.Rule + " Non-trivial: " + cfg.NonTrivial + " Distinct: every run has its own workload seed; interleavings are decided by the Go runtime and are not counted.",
-		"samples":               samples,
-		"client_operations":     ops,
-		"runs_per_hour":         float64(runs) / wall * 3600,
-		"seeds_per_hour":        float64(runs) / wall * 3600,
-		"race_reports":          len(reports),
+		"rule":                     cfg.Rule + " Non-trivial: " + cfg.NonTrivial + " Distinct: every run has its own workload seed; interleavings are decided by the Go runtime and are not counted.",
+		"samples":                  samples,
+		"client_operations":        ops,
+		"runs_per_hour":            float64(runs) / wall * 3600,
+		"seeds_per_hour":           float64(runs) / wall * 3600,
+		"race_reports":             len(reports),
 		"distinct_race_signatures": len(sigs),
-		"engines":               engines,
-		"known_findings":        kf,
-		"known_finding_hits":    hits,
-		"real_components":       cfg.Real,
-		"stubbed_components":    cfg.Stub,
-		"simulated_seconds":     0,
+		"engines":                  engines,
+		"known_findings":           kf,
+		"known_finding_hits":       hits,
+		"real_components":          cfg.Real,
+		"stubbed_components":       cfg.Stub,
+		"simulated_seconds":        0,
 	}
 	ev := map[string]interface{}{"property_id": prop, "tier": tier, "seed": seed, "level": cfg.Level, "coverage": cov, "assumptions": cfg.Assume, "wall_s": wall, "violations": nviol}
 	b, _ := json.MarshalIndent(ev, "", " ")
